@@ -158,6 +158,8 @@ Fixpoint tx_get (tx : txvars) (k : bytes) : option bytes :=
   | (k', v) :: r => if bytes_eqb k' k then Some v else tx_get r k
   end.
 Definition tx_set (tx : txvars) (k v : bytes) : txvars := (k, v) :: tx.
+(* WAF.newTransaction: TX.0 .. TX.9 exist from the start and hold "" *)
+Definition tx_init : txvars := map (fun i => (itoa (N.of_nat i), [])) (seq 0 10).
 (* Transaction.CaptureField(i, v): TX:<itoa i> := v, only while the rule has `capture` *)
 Definition capture_field (capturing : bool) (tx : txvars) (i : nat) (v : bytes) : txvars :=
   if capturing then tx_set tx (itoa (N.of_nat i)) v else tx.
